@@ -65,11 +65,11 @@ class SyntaxLines(Part):
     def strategy(self, tier):
         rng = st.one_of(st.none(), st.none(), st.tuples(st.integers(-2, 12), st.integers(1, 14)).map(lambda t: [t[0], max(1, t[0], t[1])]))
         return st.builds(
-            lambda code, lexer, ln, start, lr, hl, ww, cw, ig, theme, ts, narrow, rn, fp: {"code": code, "lexer": lexer, "line_numbers": ln, "start_line": start, "line_range": lr if ln else None, "highlight": hl,
-                                                                                    "word_wrap": ww, "code_width": cw, "indent_guides": ig, "theme": theme, "tab_size": ts, "narrow": narrow, "renders": rn, "from_path": fp},
+            lambda code, lexer, ln, start, lr, hl, ww, cw, ig, theme, ts, narrow, rn, fp, ft: {"code": code, "lexer": lexer, "line_numbers": ln, "start_line": start, "line_range": lr if ln else None, "highlight": hl,
+                                                                                    "word_wrap": ww, "code_width": cw, "indent_guides": ig, "theme": theme, "tab_size": ts, "narrow": narrow, "renders": rn, "from_path": fp, "fitted": ft},
             source(), st.sampled_from(LEXERS), st.sampled_from([True, True, False]), st.one_of(st.just(1), st.integers(1, 10000), st.sampled_from([9, 99, 999])), rng,
             st.lists(st.integers(1, 12), max_size=3), st.booleans(), st.one_of(st.none(), st.none(), st.integers(20, 60)), st.booleans(), st.sampled_from(THEMES), st.sampled_from([4, 4, 8, 2]),
-            st.one_of(st.none(), st.none(), st.integers(12, 30)), st.sampled_from([1, 1, 2, 3]), st.sampled_from([None, None, None, "json", "html", "py", "txt", "python"]),
+            st.one_of(st.none(), st.none(), st.integers(12, 30)), st.sampled_from([1, 1, 2, 3]), st.sampled_from([None, None, None, "json", "html", "py", "txt", "python"]), st.sampled_from([False, False, True]),
         )
 
     def check(self, spec, ctx):
@@ -123,7 +123,14 @@ class SyntaxLines(Part):
         start = spec["start_line"]
         lr = spec["line_range"]
         numbers = spec["line_numbers"]
-        segs = sut(lambda: list(con.render(syn, con.options)))
+        target = syn
+        if spec.get("fitted") and not spec["narrow"]:
+            # inside something that measures its child first and renders it at the measured width (Align, as print(justify=...) uses it)
+            from rich.align import Align
+
+            target = Align(syn, "left")
+            ctx.cls("measured-then-rendered")
+        segs = sut(lambda: list(con.render(target, con.options)))
         out = "".join(s.text for s in segs if not s.is_control)
         out_lines = out.split("\n")
         if out_lines and out_lines[-1] == "":
